@@ -274,6 +274,14 @@ def handle (args : List V) : V :=
                         encBits o.labels]
       | .error e => encErr e
     | _, _, _, _, _, _, _ => bad "pipeline.model"
+  -- the COMPOSED model of compute_features(burst_method='amp'): `mask` is the dual-threshold detector's answer for the arguments the model hands it
+  | [.atom "pipelineamp.model", c, x, pad, b, amp, bd, bk, th, dur, mask, thr] =>
+    match decCentre c, x.listOf? V.rat?, pad.nat?, b.bits?, amp.listOf? V.rat?, bd.int?, bk.opt? V.rat?, th.opt? V.rat?, dur.opt? V.rat?, mask.bits?, thr.rat? with
+    | some c, some x, some pad, some b, some amp, some bd, some bk, some th, some dur, some mask, some thr =>
+      match pipelineAmp c x pad b amp bd bk th dur (fun _ => mask) thr with
+      | .ok o => .list [.atom "ok", encList encRow o.samples, encList encShape o.shape, encList encORat o.fracs, encBits o.labels]
+      | .error e => encErr e
+    | _, _, _, _, _, _, _, _, _, _, _ => bad "pipelineamp.model"
   | [.atom "cyclepoints.wf", rows, n, bd] =>
     match rows.listOf? decRow, n.nat?, bd.int? with
     | some rows, some n, some bd => encBool (decide (wellFormed rows n bd))
